@@ -575,6 +575,11 @@ func (s *Lexer) getNextToken() (*Token, error) {
 	switch current_state {
 	case SERROR:
 		token.TokenType = ERROR
+	case SSTRING_S_ESCAPE:
+		fallthrough
+	case SSTRING_D_ESCAPE:
+		// input ended right after a backslash inside a string
+		fallthrough
 	case SSTRING_SINGLE:
 		fallthrough
 	case SSTRING_DOUBLE:
@@ -715,6 +720,9 @@ func (s *Lexer) getNextToken() (*Token, error) {
 		token.TokenType = NEQUAL
 	case SCOLON:
 		token.TokenType = ERROR
+	case SEXCL:
+		// '!' is only valid as the start of "!="
+		token.TokenType = ERROR
 	case SBLOCKCOMMENT:
 		fallthrough
 	case SBLOCKCOMMENTSTARTEND:
@@ -723,6 +731,9 @@ func (s *Lexer) getNextToken() (*Token, error) {
 		unendingBlockComment = true
 		token.TokenType = ERROR
 	case SBLOCKCOMMENTFINAL:
+		fallthrough
+	case SCOMMENTSTART:
+		// "--" with nothing after it is an empty line comment
 		fallthrough
 	case SCOMMENT:
 		token.TokenType = COMMENT
